@@ -3,7 +3,7 @@
    array sizes), and the witnesses that show the side conditions are tight. *)
 From Coq Require Import ZArith List Bool Arith Lia.
 From LZ4V Require Import Gen.Consts Gen.TPoolSites Model.WriteReg Model.TPool Model.Pipeline
-  Proofs.TPoolProofs Proofs.DecodeRingProofs.
+  Proofs.TPoolProofs Proofs.DecodeRingProofs Proofs.CompressProofs.
 Import ListNotations.
 
 (* ---- the generated layer is consistent with what the models assume *)
@@ -92,4 +92,38 @@ Proof.
   exists (picks [(0,3);(1,3);(0,3);(1,3);(1,3);(2,0);(0,3);(2,3);(2,0);(0,3);(2,3);(3,3);(3,3);(3,3)]).
   eexists. split; [vm_compute; reflexivity|]. split; [reflexivity|]. split; [reflexivity|]. split; [reflexivity|].
   apply blocked_no_step. reflexivity.
+Qed.
+
+(* ---- compression with the generated queue depths, any worker count in 1..LZ4_NBWORKERS_MAX (in fact any N >= 1) *)
+Definition cl_cfg (N nfull : nat) (last : bool) : cfg :=
+  mkCfg CompLegacy N (Z.to_nat TP_CL_t_depth) (Z.to_nat TP_CL_w_depth) (Z.to_nat NB_BUFFSETS) (Z.to_nat PBUFFERS_NB) nfull last 0 [].
+Definition cf_cfg (N nfull : nat) (last : bool) : cfg :=
+  mkCfg CompLZ4F N (Z.to_nat TP_CF_t_depth) (Z.to_nat TP_CF_w_depth) (Z.to_nat NB_BUFFSETS) (Z.to_nat PBUFFERS_NB) nfull last 0 [].
+
+Theorem sequential_equiv_legacy : forall N nfull last sched st, 1 <= N ->
+  run (cl_cfg N nfull last) (init_state (cl_cfg N nfull last)) sched = Some st ->
+  (exists e, s_out st = firstn e (sequential_output (cl_cfg N nfull last))) /\
+  (final st = true -> s_out st = sequential_output (cl_cfg N nfull last)).
+Proof.
+  intros N nfull last sched st HN H.
+  assert (C1 : is_comp (cl_cfg N nfull last)) by (left; reflexivity).
+  assert (D1 : 1 <= c_tdepth (cl_cfg N nfull last)) by (vm_compute; lia).
+  assert (D2 : 1 <= c_wdepth (cl_cfg N nfull last)) by (vm_compute; lia).
+  split.
+  - eapply comp_prefix; eassumption.
+  - intros F. eapply comp_final; eassumption.
+Qed.
+
+Theorem sequential_equiv_lz4f : forall N nfull last sched st, 1 <= N -> 1 <= nfull ->
+  run (cf_cfg N nfull last) (init_state (cf_cfg N nfull last)) sched = Some st ->
+  (exists e, s_out st = firstn e (sequential_output (cf_cfg N nfull last))) /\
+  (final st = true -> s_out st = sequential_output (cf_cfg N nfull last)).
+Proof.
+  intros N nfull last sched st HN Hn H.
+  assert (C1 : is_comp (cf_cfg N nfull last)) by (right; split; [reflexivity|exact Hn]).
+  assert (D1 : 1 <= c_tdepth (cf_cfg N nfull last)) by (vm_compute; lia).
+  assert (D2 : 1 <= c_wdepth (cf_cfg N nfull last)) by (vm_compute; lia).
+  split.
+  - eapply comp_prefix; eassumption.
+  - intros F. eapply comp_final; eassumption.
 Qed.
